@@ -19,7 +19,15 @@ DESIGN_REF = "DESIGN.md §6 C04"
 
 
 def plan(ctx):
-    return pc.plan_proc(ctx, ID, ["mixed", "nofatal", "allok"], 60, 3000)
+    batches = pc.plan_proc(ctx, ID, ["mixed", "nofatal", "allok"], 60, 3000)
+    from checks import C09 as c9
+    rng = ctx["rng"]
+    ops = []
+    for _ in range(300 if ctx["tier"] == "quick" else 6000):
+        o = c9.gen_op(rng)
+        ops.append("frame serve " + o.split(" ", 2)[2])
+    batches.append(("serve", [("serve%d" % i, ops[i:i + 50]) for i in range(0, len(ops), 50)]))
+    return batches
 
 
 def run(ctx, bname, seqs):
